@@ -129,6 +129,11 @@ func runC35(r *core.Run) {
 					q := s.SQL
 					// the UpdateAccountsMetadata timestamp is wall-clock in this harness call: blank it
 					q = regexp.MustCompile(`'\d{4}-\d\d-\d\d[ T]\d\d:\d\d:\d\d[^']*'`).ReplaceAllString(q, "'<ts>'")
+					if m[1] == "logs" {
+						// the data column legitimately carries postCommitEffectiveVolumes only when that
+						// feature is on; the memento (what is hashed and replayed) must be identical
+						q = regexp.MustCompile(`'\{"transaction":.*?\}', '\\x`).ReplaceAllString(q, "'<data>', '\\x")
+					}
 					seq = append(seq, q)
 				}
 			}
